@@ -518,20 +518,16 @@ func genSchedule(c *vf.Ctx, i int, r *rand.Rand) *schedule {
 	if i%24 == 23 {
 		layout = 8
 	}
+	var dropJoinAt int64
 	switch layout {
-	case 8: // the total power drops sharply a few heights before the boundary (the strongest validator
-		// leaves, a power-1 validator joins): the priority spread exceeds 2x the new total for several
-		// heights, so the per-height priority rescaling is active on the heights that follow
-		s.initial = 1
+	case 8: // the strongest validator leaves and a power-1 validator joins shortly before the boundary.
+		// Candidates are searched (with the trusted ValidatorSet arithmetic only) for one where the priority
+		// spread stays above 2x the new total power, i.e. the per-height rescaling is active on the heights
+		// right after the change - there "n single priority steps" and "one n-fold step" can differ.
+		s.initial = K - 9
 		s.name = "power-drop"
-		for len(s.genesis) < 3 {
-			s.genesis = append(s.genesis, types.NewValidator(valKey(len(s.genesis)).PubKey(), 1))
-			nv++
-		}
-		for v := range s.genesis {
-			s.genesis[v].VotingPower = 20 + r.Int64N(40)
-		}
-		s.genesis[0].VotingPower = 200 + r.Int64N(800)
+		s.genesis, dropJoinAt = powerDropCandidate(r, s.initial)
+		nv = len(s.genesis)
 	case 0, 1, 2: // chain from height 1, window around K
 		s.initial = 1
 		s.name = "initial=1,window@K"
@@ -592,7 +588,7 @@ func genSchedule(c *vf.Ctx, i int, r *rand.Rand) *schedule {
 	nextNew := nv
 	changeHeights := pick(s.initial+2, K)
 	if layout == 8 {
-		changeHeights = []int64{K - 5 + int64(r.IntN(4))}
+		changeHeights = []int64{dropJoinAt}
 	}
 	for _, at := range changeHeights { // old-chain layout: the record of K (a reference target) is dropped, so no change there
 		var ch []*types.Validator
@@ -673,6 +669,41 @@ func genSchedule(c *vf.Ctx, i int, r *rand.Rand) *schedule {
 	}
 	sort.Slice(s.query, func(a, b int) bool { return s.query[a] < s.query[b] })
 	return s
+}
+
+// powerDropCandidate returns genesis validators and the height at which "validator 0 leaves,
+// a power-1 validator joins" takes effect, preferring a candidate for which stepping the set
+// once per height differs from one multi-step.
+func powerDropCandidate(r *rand.Rand, initial int64) ([]*types.Validator, int64) {
+	var gen []*types.Validator
+	at := initial + 2
+	for try := 0; try < 400; try++ {
+		n := 3 + r.IntN(2)
+		gen = gen[:0]
+		for v := 0; v < n; v++ {
+			gen = append(gen, types.NewValidator(valKey(v).PubKey(), 1+r.Int64N(100)))
+		}
+		at = initial + 2 + int64(r.IntN(4))
+		vs := types.NewValidatorSet(copyVals(gen))
+		for h := initial + 1; h < at; h++ {
+			vs.IncrementProposerPriority(1)
+		}
+		if vs.UpdateWithChangeSet([]*types.Validator{types.NewValidator(valKey(0).PubKey(), 0), types.NewValidator(valKey(n).PubKey(), 1)}) != nil {
+			continue
+		}
+		vs.IncrementProposerPriority(1)
+		for m := 2; m <= 4; m++ {
+			a := vs.CopyIncrementProposerPriority(m)
+			b := vs.Copy()
+			for j := 0; j < m; j++ {
+				b.IncrementProposerPriority(1)
+			}
+			if prios(a) != prios(b) {
+				return copyVals(gen), at
+			}
+		}
+	}
+	return copyVals(gen), at
 }
 
 func sortedKeys(m map[int]int64) []int {
